@@ -10,7 +10,7 @@ from multiprocessing import Pool
 from common import asan_stage, NCPU, WORK, Result, SplitMix, build, finish, seed, workdir
 from fsutil import (B3, MUTATING, STAGING, base_env, clear_traces, content_map, is_staging, read_traces, rmtree, run, set_mtime, shim_env, snapshot, write_file)
 
-PATH_POOL = ["f", "g", "d/h", "d/e/i", "with space", "it's", "new\nline", "é日", "-dash", "d/star*", "q?", "$x", "c", "c/x", "back\\slash", "h.txt"]
+PATH_POOL = ["f", "g", "d/h", "d/e/i", "d.x", "d/e.y", "with space", "it's", "new\nline", "é日", "-dash", "d/star*", "q?", "$x", "c", "c/x", "back\\slash", "h.txt"]
 SHARED_CONTENTS = [b"Z", b"Y", b"", b"X" * 3000, b"W" * 70000]
 CONFLICT_RE = re.compile(r"^(.*)\.conflict-vh-([0-9a-f]{12})$", re.S)
 
@@ -153,6 +153,12 @@ def scripted_histories():
     # delete vs modify, both directions
     H.append([("w", "A", "g", Z), ("w", "B", "g", Z), ("s",), ("d", "A", "g"), ("w", "B", "g", X), ("s",), ("s",)])
     H.append([("w", "A", "g", Z), ("w", "B", "g", Z), ("s",), ("d", "B", "g"), ("w", "A", "g", X), ("s",), ("s",)])
+    # a file beside a directory whose name is its prefix (`d.x` next to `d/`): byte order and path order differ
+    H.append([("w", "A", "d.x", b"base"), ("w", "B", "d.x", b"base"), ("w", "A", "d/h", Z), ("w", "B", "d/h", Z), ("s",), ("w", "A", "d.x", b"a-edit"), ("w", "B", "d.x", b"b-edit"), ("w", "A", "d/zz", b"new-in-dir"), ("s",), ("s",)])
+    H.append([("w", "A", "d.x", b"base"), ("w", "B", "d.x", b"base"), ("w", "A", "d/h", Z), ("w", "B", "d/h", Z), ("w", "B", "d/e/i", Y), ("w", "A", "d/e/i", Y), ("s",), ("w", "B", "d.x", b"b2"), ("w", "A", "d.x", b"a2"), ("d", "B", "d/h"), ("s",), ("s",)])
+    # both sides make the same edit, later one side goes back to the old bytes
+    H.append([("w", "A", "f", b"v1"), ("w", "B", "f", b"v1"), ("s",), ("w", "A", "f", b"v2"), ("w", "B", "f", b"v2"), ("s",), ("w", "A", "f", b"v1"), ("s",), ("s",)])
+    H.append([("w", "A", "f", b"v1"), ("w", "B", "f", b"v1"), ("s",), ("w", "A", "f", b"v2"), ("w", "B", "f", b"v2"), ("s",), ("d", "A", "f"), ("w", "B", "f", b"v1"), ("s",), ("s",)])
     # create on one side, three paths in one run, empty file
     H.append([("w", "A", "f", b""), ("w", "B", "g", Y), ("w", "A", "d/e/i", X), ("s",), ("w", "A", "g", b"g2"), ("d", "B", "f"), ("w", "B", "d/e/i", b"i2"), ("s",), ("s",)])
     # recreate after delete propagated
@@ -833,6 +839,47 @@ def c07_case(sb, rng, kind, arg=None):
     return planned_deletes > 0, viol, desc
 
 
+def c07_lossy_pair(wroot, rng, tag):
+    """Two directory pairs whose paths differ only in a byte that is not valid UTF-8, one HOME.
+    Pair 1 is synced; pair 2 was never synced, so its run has no recorded state of its own and must
+    not delete. Returns violations."""
+    viol = []
+    root = os.path.join(wroot, "lossy%s" % tag)
+    rmtree(root)
+    home = os.path.join(root, "home")
+    os.makedirs(home)
+    b1, b2 = rng.pick([("\udcff", "\udcfe"), ("\udc80", "\udc81"), ("x\udcf0y", "x\udcf1y")])
+    pairs = []
+    for b in (b1, b2):
+        a_, b_ = os.path.join(root, "proj" + b, "A"), os.path.join(root, "proj" + b, "B")
+        os.makedirs(a_)
+        os.makedirs(b_)
+        pairs.append((a_, b_))
+    content = b"shared-by-name-only " + rng.bytes(4).hex().encode()
+    env = base_env(home)
+    for side in pairs[0]:
+        write_file(os.path.join(side, "doc.txt"), content)
+    r1 = run(["bisync", pairs[0][0], pairs[0][1]], env)
+    if "Bidirectional sync complete" not in r1.stdout:
+        return None
+    one = rng.pick([0, 1])
+    write_file(os.path.join(pairs[1][one], "doc.txt"), content)
+    write_file(os.path.join(pairs[1][1 - one], "other.txt"), b"other")
+    r2 = run(["bisync", pairs[1][0], pairs[1][1]], env)
+    for side in pairs[1]:
+        for fn, data in (("doc.txt", content), ("other.txt", b"other")):
+            try:
+                ok = open(os.path.join(side, fn), "rb").read() == data
+            except OSError:
+                ok = False
+            if not ok:
+                viol.append(("C07|path-removed|pair-differs-only-in-non-utf8-byte", {"file": fn, "side": os.path.basename(side), "run": r2.brief()}))
+    if "SAFE no-base mode" not in r2.stderr:
+        viol.append(("C07|no-safe-mode-banner|pair-differs-only-in-non-utf8-byte", {"stderr": r2.stderr[-200:]}))
+    rmtree(root)
+    return viol
+
+
 def _c07_worker(args):
     seedv, lo, hi, wroot, sweep = args
     res = {"evaluations": 0, "distinct": set(), "viol": [], "counters": {}, "samples": [], "inconclusive": 0}
@@ -840,6 +887,14 @@ def _c07_worker(args):
     def cnt(k, n=1):
         res["counters"][k] = res["counters"].get(k, 0) + n
 
+    if not sweep:
+        v = c07_lossy_pair(wroot, SplitMix.derive(seedv, "c07lossy", lo), "%d" % lo)
+        if v is not None:
+            res["evaluations"] += 1
+            cnt("runs[pair-differs-only-in-non-utf8-byte]")
+            res["distinct"].add("lossy-pair|%d" % (lo % 5))
+            for sig, det in v:
+                res["viol"].append((sig, det))
     for idx in range(lo, hi):
         rng = SplitMix.derive(seedv, "c07", idx)
         if sweep:
